@@ -518,7 +518,16 @@ let gen_life seed count =
            List.iteri (fun i k ->
                emit ("drop " ^ sname k);
                if i < List.length order - 1 && chance 50 then
-                 (match stages !s with [] -> () | ks -> emit ("avail " ^ sname (pick ks)))) order;
+                 (match stages !s with [] -> () | ks -> emit ("avail " ^ sname (pick ks)));
+               (* the remaining iterators go on working after a peer (possibly a detached one with unpublished progress) is gone *)
+               if i < List.length order - 1 && chance 60 then
+                 for _ = 1 to 1 + rnd 3 do
+                   if not !s.freed then begin
+                     let t = gen_op g !s in
+                     let w = List.hd (String.split_on_char ' ' t) in
+                     if w <> "drop" && w <> "dropbuf" && w <> "resplit" then emit t
+                   end
+                 done) order;
            if !s.freed then raise Exit;
            if not cfg.c_heap then begin
              if sess = sessions then (if chance 50 then emit "dropbuf")
